@@ -1,5 +1,7 @@
 import AdfObdd.Equivar
 import AdfObdd.Stable
+import AdfObdd.EquivarMore
+import AdfObdd.StableExact
 /-! # C10 — answers do not depend on presentation (fact order, sorting, naming)
 
 A presentation change (reordering the facts, a sort, consistent renaming) is a bijection `p` of the
@@ -19,12 +21,81 @@ theorem complete_equivariant (p q : Nat → Nat) (D D' : List BoolFn) (w w' : I3
     (h : Renamed p q D D') (hw : RenamedI p D.length w w') : Gam D w = w → Gam D' w' = w' :=
   complete_renamed p q D D' w w' h hw
 
-/-- full statement for grounded and stable models, kept visible; PARTIAL: equivariance of the least
-fixpoint and of the reduct are immediate consequences of `consequence_operator_equivariant` that are
-not yet written out -/
+/-- a re-presentation can be undone (`Renamed` is symmetric up to swapping the bijection and its
+inverse), so every correspondence below holds in both directions -/
+theorem presentation_symmetric (p q : Nat → Nat) (D D' : List BoolFn) (h : Renamed p q D D') :
+    Renamed q p D' D := EquivarMore.Renamed.symm h
+
+/-- full statement for the grounded interpretation: least fixpoints correspond -/
 def lfp_equivariant_statement : Prop :=
   ∀ (p q : Nat → Nat) (D D' : List BoolFn) (g g' : I3), Renamed p q D D' → RenamedI p D.length g g' →
     IsLfp D g → IsLfp D' g'
+
+/-- proved: the fixpoint part is `complete_equivariant`; for leastness a fixpoint of the
+re-presented framework is read back through `p` (a fixpoint of the original one, by symmetry) -/
+theorem lfp_equivariant : lfp_equivariant_statement :=
+  fun p q D D' g g' h hg hl => EquivarMore.lfp_renamed p q D D' g g' h hg hl
+
+/-- and since the least fixpoint is unique, THE grounded interpretations of two presentations
+correspond (nothing assumed about `g'` except that it is the grounded interpretation of `D'`) -/
+theorem grounded_equivariant (p q : Nat → Nat) (D D' : List BoolFn) (g g' : I3) (h : Renamed p q D D')
+    (hg : IsLfp D g) (hg' : IsLfp D' g') : RenamedI p D.length g g' :=
+  EquivarMore.grounded_corr p q D D' g g' h hg hg'
+
+/-- the reduct commutes with every re-presentation -/
+theorem reduct_equivariant (p q : Nat → Nat) (D D' : List BoolFn) (v v' : I3) (h : Renamed p q D D')
+    (hv : RenamedI p D.length v v') : Renamed p q (redu D v) (redu D' v') :=
+  EquivarMore.redu_renamed p q D D' v v' h hv
+
+/-- stable models correspond (the definition as in C03: total, a model, every true statement is
+true in the least fixpoint of the reduct) -/
+theorem stable_equivariant (p q : Nat → Nat) (D D' : List BoolFn) (v v' : I3) (h : Renamed p q D D')
+    (hv : RenamedI p D.length v v') :
+    (TotalI v ∧ Gam D v = v ∧
+      ∀ w : I3, IsLfp (redu D v) w → ∀ i : Nat, v[i]? = some (some true) → w[i]? = some (some true)) →
+    (TotalI v' ∧ Gam D' v' = v' ∧
+      ∀ w : I3, IsLfp (redu D' v') w → ∀ i : Nat, v'[i]? = some (some true) → w[i]? = some (some true)) :=
+  EquivarMore.stable_renamed p q D D' v v' h hv
+
+/-- composition with C01 / C02 / C03 — the functions the driver runs: for two presentations of one
+framework on two (arbitrary, well-formed) stores, the grounded vectors correspond, and an
+interpretation is among the complete / stable answers of the one iff the corresponding
+interpretation is among the answers of the other -/
+theorem answers_equivariant (p q : Nat → Nat) (s s' : Store) (n : Nat) (ac ac' : List Nat)
+    (hw : WF s) (hw' : WF s') (hn : ac.length = n) (hn' : ac'.length = n)
+    (hv : ∀ t ∈ ac, t < s.nodes.size) (hv' : ∀ t ∈ ac', t < s'.nodes.size)
+    (h : Renamed p q (ac.map (eval s)) (ac'.map (eval s'))) :
+    RenamedI p n ((groundedLoop StoreRA (n + 1) s ac).2.map storeIsConst)
+      ((groundedLoop StoreRA (n + 1) s' ac').2.map storeIsConst) ∧
+    ∀ v v' : I3, RenamedI p n v v' →
+      (v ∈ (completeAll s n ac).2.2.map (fun x => x.map storeIsConst) ↔
+        v' ∈ (completeAll s' n ac').2.2.map (fun x => x.map storeIsConst)) ∧
+      (v ∈ (stableAll s n ac).2.map (fun x => x.map storeIsConst) ↔
+        v' ∈ (stableAll s' n ac').2.map (fun x => x.map storeIsConst)) := by
+  have hDl : (ac.map (eval s)).length = n := by simp [hn]
+  constructor
+  · have := EquivarMore.grounded_corr p q _ _ _ _ h
+      (grounded_native (n + 1) s ac hw hv (by omega)) (grounded_native (n + 1) s' ac' hw' hv' (by omega))
+    rwa [hDl] at this
+  · intro v v' hvv
+    have hvv' : RenamedI p (ac.map (eval s)).length v v' := by rw [hDl]; exact hvv
+    constructor
+    · rw [(CompleteExact.completeAll_exact s n ac hw hn hv).2.1 v,
+        (CompleteExact.completeAll_exact s' n ac' hw' hn' hv').2.1 v',
+        EquivarMore.complete_renamed_iff p q _ _ v v' h hvv']
+      simp [hvv.1, hvv.2.1]
+    · have e := (StableExact.stableAll_filter s n ac hw hn hv).2
+      have e' := (StableExact.stableAll_filter s' n ac' hw' hn' hv').2
+      have a := (StableExact.answers_exact s n ac hw hn hv _ (StableExact.verdict_iff (ac.map (eval s)))).2 v
+      have a' := (StableExact.answers_exact s' n ac' hw' hn' hv' _
+        (StableExact.verdict_iff (ac'.map (eval s')))).2 v'
+      simp only [← e] at a
+      simp only [← e'] at a'
+      rw [a, a']
+      have : StableExact.StableI (ac.map (eval s)) v ↔ StableExact.StableI (ac'.map (eval s')) v' :=
+        EquivarMore.stable_renamed_iff p q _ _ v v' h hvv'
+      rw [this]
+      simp [hvv.1, hvv.2.1]
 
 example : Renamed id id [fun σ => σ 0] [fun σ => σ 0] :=
   ⟨fun _ => rfl, fun _ => rfl, rfl, fun i h => h, fun i h => h, by
@@ -32,5 +103,38 @@ example : Renamed id id [fun σ => σ 0] [fun σ => σ 0] :=
     cases i with
     | zero => simp at h; subst h; simp
     | succ k => simp at h⟩
+
+/-- non-vacuity with a proper reordering: `s(a). s(b). ac(a,b). ac(b,c(v)).` against
+`s(b). s(a). ac(b,c(v)). ac(a,b).` (swap of the two statements) -/
+def sw (k : Nat) : Nat := if k = 0 then 1 else if k = 1 then 0 else k
+
+theorem sw_sw (k : Nat) : sw (sw k) = k := by
+  unfold sw
+  by_cases h0 : k = 0 <;> by_cases h1 : k = 1 <;> simp [h0, h1]
+
+theorem sw_lt (i : Nat) (h : i < 2) : sw i < 2 := by
+  unfold sw
+  by_cases h0 : i = 0 <;> by_cases h1 : i = 1 <;> simp [h0, h1] <;> omega
+
+theorem swap_example : Renamed sw sw [fun σ => σ 1, fun _ => true] [fun _ => true, fun σ => σ 0] :=
+  ⟨sw_sw, sw_sw, rfl, fun i h => sw_lt i h, fun i h => sw_lt i h, by
+    intro i f h
+    match i with
+    | 0 => simp at h; subst h; simp [sw]
+    | 1 => simp at h; subst h; simp [sw]
+    | k + 2 => simp at h⟩
+
+example : RenamedI sw 2 [some true, none] [none, some true] :=
+  ⟨rfl, rfl, fun i hi => by
+    have : i = 0 ∨ i = 1 := by omega
+    rcases this with h | h <;> subst h <;> simp [sw]⟩
+
+/-- the theorems apply to it: the grounded interpretation `a ↦ T, b ↦ T` carries over -/
+example (hl : IsLfp [fun σ => σ 1, fun _ => true] [some true, some true]) :
+    IsLfp [fun _ => true, fun σ => σ 0] [some true, some true] :=
+  lfp_equivariant sw sw _ _ _ _ swap_example
+    ⟨rfl, rfl, fun i hi => by
+      have : i = 0 ∨ i = 1 := by simp at hi; omega
+      rcases this with h | h <;> subst h <;> simp [sw]⟩ hl
 
 end C10
